@@ -8,7 +8,7 @@ import Heathcliff.Proofs.C01V
 import Heathcliff.Proofs.C01X
 import Heathcliff.Proofs.C01Y
 import Heathcliff.Proofs.GenScalingSpec
-import Heathcliff.Proofs.GenDec11
+import Heathcliff.Proofs.GenDec12
 import Heathcliff.Proofs.GenRns8
 import Heathcliff.Proofs.GenRns19
 import Heathcliff.Proofs.GenContextC01
@@ -634,5 +634,9 @@ theorem gen_bgv_fixup_composite_witness : type_of% @HC.gd_bgv_witness := @HC.gd_
 /-- the phase computation `dot_product_ct_sk_array` as regenerated: order of kernel calls / offsets = the model's, every size ≥ 2 -/
 theorem gen_dot_product_plan_eq : type_of% @HC.gd_dot_product_plan_eq := @HC.gd_dot_product_plan_eq
 theorem gen_dot_plan_witness : type_of% @HC.gd_dot_plan_witness := @HC.gd_dot_plan_witness
+
+theorem gen_bfv_decrypt_eq : type_of% @HC.gd_bfv_decrypt_eq := @HC.gd_bfv_decrypt_eq
+theorem gen_ckks_decrypt_eq : type_of% @HC.gd_ckks_decrypt_eq := @HC.gd_ckks_decrypt_eq
+theorem gen_decrypt_dispatch_eq : type_of% @HC.gd_decrypt_dispatch_eq := @HC.gd_decrypt_dispatch_eq
 
 end HC.C01
